@@ -9,7 +9,12 @@ import hashlib
 
 VERIF = os.path.dirname(os.path.dirname(os.path.abspath(__file__)))
 COQ = os.path.join(VERIF, 'coq')
-GEN = os.path.join(COQ, 'gen')
+# VERIF_SCRATCH redirects everything a run writes (generated Coq, compiled Props, evidence, replays) to another
+# directory, and VERIF_REPO points the run at another checkout: used only to try the checks on scratch
+# worktrees (seeded changes) without touching /repo, /verif/coq/gen or /verif/evidence.
+SCRATCH = os.environ.get('VERIF_SCRATCH')
+GEN = os.path.join(SCRATCH, 'gen') if SCRATCH else os.path.join(COQ, 'gen')
+EVID = os.path.join(SCRATCH, 'evidence') if SCRATCH else os.path.join(VERIF, 'evidence')
 REPO = os.environ.get('VERIF_REPO', '/repo')
 COQ_FLAGS = ['-Q', os.path.join(COQ, 'theories'), 'SM', '-Q', GEN, 'SMgen']
 
@@ -102,8 +107,33 @@ class Ctx:
         return p
 
     def coqc(self, path, timeout=900):
-        rc, out, err, dt = sh(['timeout', str(timeout), 'coqc', '-q'] + COQ_FLAGS + [path], timeout=timeout + 30, cwd=COQ)
+        extra = []
+        if not os.path.abspath(path).startswith(os.path.abspath(GEN)):
+            # fixed source file (theories/Props/...): keep its compiled output out of the source tree
+            os.makedirs(os.path.join(GEN, 'props_out'), exist_ok=True)
+            extra = ['-o', os.path.join(GEN, 'props_out', os.path.basename(path)[:-2] + '.vo')]
+        rc, out, err, dt = sh(['timeout', str(timeout), 'coqc', '-q'] + COQ_FLAGS + extra + [path], timeout=timeout + 30, cwd=COQ)
         return rc, out, err, dt
+
+    def coq_eval(self, header, terms, name='cases', timeout=600, chunk=400):
+        """evaluate closed Gallina terms with vm_compute inside Coq; returns one printed value (string) per term.
+        header: Coq text (imports, Open Scope).  Used for model-vs-implementation correspondence of the
+        list/Z/finite-table models."""
+        res = []
+        for c in range(0, len(terms), chunk):
+            part = terms[c:c + chunk]
+            body = header + "\nSet Printing Width 1000000. Set Printing Depth 1000000.\n" + \
+                "".join(f"Eval vm_compute in ({t}).\n" for t in part)
+            p = self.write_gen(f"{name}_{self.prop}_{c // chunk}.v", body)
+            with self.timed('coq_eval'):
+                rc, out, err, dt = self.coqc(p, timeout)
+            if rc != 0:
+                raise RuntimeError('coq_eval failed: ' + err[-1500:])
+            vals = re.findall(r'^\s*= (.*?)\n\s*: ', out, re.M | re.S)
+            if len(vals) != len(part):
+                raise RuntimeError(f'coq_eval: expected {len(part)} values, parsed {len(vals)}')
+            res += [' '.join(v.split()) for v in vals]
+        return res
 
     def prove(self, vfile, timeout=900):
         """compile a fixed Props file; every Theorem/Lemma/Example/Corollary in it is an obligation.
@@ -174,9 +204,7 @@ class Ctx:
 
     # ---------------------------------------------------------------- verdict
     def finish(self):
-        kf_path = os.path.join(VERIF, 'known_findings.json')
-        known = json.load(open(kf_path)) if os.path.exists(kf_path) else {'findings': []}
-        known_keys = {k['key']: k for k in known.get('findings', []) if k.get('property') == self.prop and k.get('status', 'known') == 'known'}
+        known_keys = load_known(self.prop)
         # broken obligations become findings (no failing input) unless an input-level finding exists
         broken = [o for o in self.obligations if o.ok is False and not o.detail.startswith('not reached')]
         violations, knowns = [], []
@@ -185,8 +213,8 @@ class Ctx:
                 knowns.append(f)
             else:
                 violations.append(f)
-        os.makedirs(os.path.join(VERIF, 'evidence'), exist_ok=True)
-        rdir = os.path.join(VERIF, 'evidence', 'replay')
+        os.makedirs(EVID, exist_ok=True)
+        rdir = os.path.join(EVID, 'replay')
         os.makedirs(rdir, exist_ok=True)
         lines = []
         for f in knowns:
@@ -220,9 +248,13 @@ class Ctx:
               "translator: /verif/lib/symtrace.py (SymPy automatic evaluation + printer), checked by the Sym==Num correspondence",
               "extraction: ExtrOcamlBasic only (Extract Inductive bool/option/list/prod/unit/sumbool), no Extract Constant; OCaml 4.13.1 float driver; libm",
               "CPython 3.12 / NumPy / SymPy running /repo's working tree"]
+        byax = {}
         for fn, a in self.assumptions_out.items():
             for thm, ax in a.items():
-                tb.append(f"Print Assumptions {thm} ({fn}): {ax}")
+                byax.setdefault(ax, []).append(thm)
+        for ax, thms in byax.items():
+            tb.append(f"Print Assumptions -> {ax}  [for: {', '.join(thms)}]")
+        tb += list(getattr(self, 'trusted_extra', []))
         ev = {
             'property_id': self.prop, 'tier': self.tier, 'seed': self.seed, 'level': 'proof',
             'coverage': {
@@ -243,13 +275,26 @@ class Ctx:
             'wall_s': round(time.time() - self.t0, 2),
             'violations': vio_count,
         }
-        json.dump(ev, open(os.path.join(VERIF, 'evidence', self.prop + '.json'), 'w'), indent=1, default=str)
+        json.dump(ev, open(os.path.join(EVID, self.prop + '.json'), 'w'), indent=1, default=str)
         for l in lines:
             print(l)
         print(f"[{self.prop}] obligations {n_ok}/{n_ob} discharged; evaluations {self.evaluations}; "
               f"correspondence cases {self.corr['cases']} disagreements {self.corr['disagreements']}; "
               f"known findings {len(knowns)}; violations {vio_count}; {ev['wall_s']} s")
         return 1 if vio_count else 0
+
+
+def load_known(prop):
+    """known findings of one property: /verif/known_findings.json (the committed file); never written at run time"""
+    kf_path = os.path.join(VERIF, 'known_findings.json')
+    known = json.load(open(kf_path)) if os.path.exists(kf_path) else {'findings': []}
+    items = list(known.get('findings', []))
+    d = os.path.join(VERIF, 'known')          # per-property fragments (merged into the single file by tools/merge_known.py)
+    if os.path.isdir(d):
+        for fn in sorted(os.listdir(d)):
+            if fn.endswith('.json'):
+                items += json.load(open(os.path.join(d, fn))).get('findings', [])
+    return {k['key']: k for k in items if k.get('property') == prop and k.get('status', 'known') == 'known'}
 
 
 def _slug(s):
